@@ -213,10 +213,10 @@ func opUnmarshal(p []string) string {
 	u := obj.NewUnmarshaller(a.atl)
 	berr, bp := safeBindU(u, target.Interface())
 	if bp {
-		return "I=B O=viol:panic-in-bind"
+		return "I=B V=- O=viol:panic-in-bind"
 	}
 	if berr != nil {
-		return "I=b O=ok"
+		return "I=b V=- O=ok"
 	}
 	fl := runSteps(u, ts)
 	oracle := "ok"
